@@ -650,6 +650,32 @@ func feed(n int, kind string, data []byte, concrete interface{}) {
 		})
 		add("copy", func() error { return p.Copy().CheckValid() })
 		add("compact", func() error { return p.Copy().Compact().CheckValid() })
+		// a profile that was serialised once is edited and serialised again (state carried by the encoder between
+		// the two: string indices cached in the profile must be rebuilt): labels and half of the samples go, so the
+		// string table shrinks in front of the comments; the second document parses back with the same comments
+		add("rewrite", func() error {
+			q := p.Copy()
+			var b1, b2 bytes.Buffer
+			if err := q.WriteUncompressed(&b1); err != nil {
+				return err
+			}
+			for _, s := range q.Sample {
+				s.Label, s.NumLabel, s.NumUnit = nil, nil, nil
+			}
+			q.Sample = q.Sample[:len(q.Sample)/2]
+			q.DropFrames, q.KeepFrames = "", ""
+			if err := q.WriteUncompressed(&b2); err != nil {
+				return err
+			}
+			q2, err := profile.ParseUncompressed(b2.Bytes())
+			if err != nil {
+				panic("the second serialisation of an edited profile does not parse: " + err.Error())
+			}
+			if fmt.Sprint(q2.Comments) != fmt.Sprint(q.Comments) || len(q2.Sample) != len(q.Sample) {
+				panic(fmt.Sprintf("the second serialisation of an edited profile has comments %q and %d samples, the profile has %q and %d", q2.Comments, len(q2.Sample), q.Comments, len(q.Sample)))
+			}
+			return nil
+		})
 		names := make([]string, 0, len(formats))
 		for k := range formats {
 			names = append(names, k)
